@@ -28,7 +28,10 @@ impl<T: VecValue, SI: VecIndex> AggFold<Option<T>, SI, SI, T> for Sparse {
                 .map(|h| h.to_usize())
                 .unwrap_or(source_len);
 
-            if next_first == 0 || current_first >= next_first {
+            // A group that reaches past the end of the source has no last element yet
+            // (same answer as `collect_one`); read_sorted_at would silently skip it and
+            // shift every later slot.
+            if next_first == 0 || current_first >= next_first || next_first > source_len {
                 slot_map.push(None);
             } else {
                 slot_map.push(Some(indices.len() as u32));
